@@ -305,3 +305,56 @@ P.unit(f"{BASE}.reading", functions=[f"{BASE}.reading", f"{BACKEND}.begin_read",
                                      f"{UKV}.__init__", f"{UKV}.open", f"{UKV}.close", f"{UKV}.read_header"])(session_unit("reading"))
 P.unit(f"{BASE}.writing", functions=[f"{BASE}.writing", f"{BASE}.flush", f"{BACKEND}.begin_write", f"{BACKEND}.end_write",
                                      f"{BACKEND}._write", f"{BACKEND}.update_keys", f"{UKV}.put"])(session_unit("writing"))
+
+
+# the session contract relies on: a rejected buffered write does not poison the queue, and the key listing is refreshed from the file
+from contracts import C02_ukv_map as C02
+P.include(C02.P, ["backend.flush/get with a doomed queued write", "backend.update_keys", "backend.get[every-listed-key-is-readable]"],
+          why="a failed session leaves nothing behind for the next one; the index is refreshed at session begin")
+
+
+# ------------------------------------------------------------------------------------------ which lock guards which file
+@P.unit("molli._aux.lock:rwlock", name="rwlock: every name of one file (relative, via a symlinked directory, with '..') maps to the same lock file")
+def _rwlock(V):
+    """pathlib.Path.resolve() canonicalises a path (symlinks, '..', cwd): two names of the same file have the same resolve().
+    absolute() does not.  Hash / base64 / path arithmetic are uninterpreted functions of their arguments."""
+    I, st = V.I, V.st
+    I.stubs.pop("molli._aux.lock:rwlock", None)        # the session units use rwlock through a stub; here its body is verified
+    Path = I.ext_models["pathlib.Path"]
+    S = z3.StringSort()
+    Fres, Fabs = z3.Function("path_resolve", S, S), z3.Function("path_absolute", S, S)
+    mk = lambda z: Obj(Path, {"s": SV(z, "str")}, tag="path")
+    Path.ns["resolve"] = Builtin("Path.resolve", lambda i, a, k: mk(Fres(to_z3(a[0].fields["s"]))))
+    Path.ns["absolute"] = Builtin("Path.absolute", lambda i, a, k: mk(Fabs(to_z3(a[0].fields["s"]))))
+    Path.ns["expanduser"] = Builtin("Path.expanduser", lambda i, a, k: a[0])
+    Path.ns["as_posix"] = Builtin("Path.as_posix", lambda i, a, k: a[0].fields["s"])
+    Path.ns["__str__"] = Builtin("Path.__str__", lambda i, a, k: a[0].fields["s"])
+    Path.ns["__fspath__"] = Path.ns["__str__"]
+    Path.ns["mkdir"] = Builtin("Path.mkdir", lambda i, a, k: None)
+    Path.ns["__truediv__"] = Builtin("Path./", lambda i, a, k: mk(z3.Concat(to_z3(a[0].fields["s"]), z3.StringVal("/"), to_z3(a[1] if not isinstance(a[1], Obj) else a[1].fields["s"]))))
+    # hash / base64 are uninterpreted functions of the bytes they are given (encode/decode are the byte-store codec axioms)
+    from pyvc.filemodel import BytesS as _B
+    Fsha = z3.Function("sha3_512_digest", _B, _B)
+    Fb64 = z3.Function("urlsafe_b64", _B, _B)
+    dig = ClassV("sha3", builtin=True, bases=[I.builtins["object"]])
+    dig.compute_mro()
+    dig.ns["digest"] = Builtin("digest", lambda i, a, k: SV(Fsha(a[0].fields["of"]), "bytes"))
+    I.ext_models["hashlib.sha3_512"] = Builtin("sha3_512", lambda i, a, k: Obj(dig, {"of": to_z3(a[0])}, tag="sha3"))
+    I.ext_models["base64.urlsafe_b64encode"] = Builtin("urlsafe_b64encode", lambda i, a, k: SV(Fb64(to_z3(a[0])), "bytes"))
+    I.opaque_globals[("molli.config", "SHARED_DIR")] = mk(z3.StringVal("/shared"))
+    real_str_method = I.str_method_hook if hasattr(I, "str_method_hook") else None
+    p, q = V.sym("p", "str"), V.sym("q", "str")
+    V.assume(Fres(p.z) == Fres(q.z))          # two names of one file
+    V.witness(lambda ev: {"op": "rwlock", "signature": "rwlock-aliases"})
+    V.cover()
+    outs = []
+    for x in (p, q):
+        o = V.call("molli._aux.lock:rwlock", [x])
+        V.ensure("rwlock/returns-a-path", z3.BoolVal(o.returned and isinstance(o.value, Obj) and o.value.cls is Path),
+                 raised=None if o.returned else repr(getattr(o.exc, "fields", o.exc)))
+        if not (o.returned and isinstance(o.value, Obj)):
+            return
+        outs.append(to_z3(o.value.fields["s"]))
+    V.ensure("rwlock/aliases-of-one-file-share-one-lock-file", outs[0] == outs[1])
+    o3 = V.call("molli._aux.lock:rwlock", [Obj(Path, {"s": p}, tag="path")])
+    V.ensure("rwlock/str-and-Path-arguments-agree", z3.BoolVal(o3.returned) if not o3.returned else to_z3(o3.value.fields["s"]) == outs[0])
